@@ -111,6 +111,7 @@ def main():
         rng.shuffle(attrs)
         nloc = 0
         line0 = 0
+        attrsite = 0
         points = [(n, (n.lineno, n.col_offset + (1 if len(n.id) > 1 else len(n.id))), n.id) for n in loads[:job.get('nloc', 10)]]
         points += [(n, (n.end_lineno, n.end_col_offset - 1), n.attr) for n in attrs[:max(2, job.get('nloc', 10) // 3)]]
         for n, cur, ident in points:
@@ -141,7 +142,11 @@ def main():
                 cands = [k for k in bind if k[0] == pos[0] and k[1] == pos[1]]
                 if not cands and isinstance(n, ast.Attribute):
                     # an attribute-assignment site (`self.x = ...` is reported at the start of the target expression, as
-                    # tests/test_assistant_location.py expects): attribute definitions are C06's subject, not name bindings
+                    # tests/test_assistant_location.py::test_instance_attributes_locations expects): open finding
+                    # C11-attribute-assignment-position; counted when the text there is not the attribute name
+                    ok_, text_ = cut(lines, pos[0], pos[1], len(ident))
+                    if not ok_ or ''.join(map(chr, text_)) != ident:
+                        attrsite += 1
                     continue
                 name = cands[0][2] if cands else ident
                 c = bind.get((pos[0], pos[1], name)) or case_for(name, pos, kind)
@@ -151,7 +156,7 @@ def main():
         for key in sorted(bind):
             c = bind[key]
             cases.append(c)
-        out.append({'id': job['id'], 'cases': cases, 'nloc': nloc, 'line0': line0})
+        out.append({'id': job['id'], 'cases': cases, 'nloc': nloc, 'line0': line0, 'attrsite': attrsite})
     json.dump(out, sys.stdout)
 
 
